@@ -143,6 +143,14 @@ def check(repo: Repo, rep: Report) -> None:
                        f"it receives (every subscriber is, on `|` / `#`) removes itself during the loop, and the next subscriber "
                        f"never receives that notification")
     rep.require(n_loops >= 1 and subs_lists, "hot(): delivery loop / subscriber list")
+    rep.rule("M8-number-cast", "try_number: int(text) is tried before float(text) and each result is returned unchanged", floor=1)
+    tn = repo.fn(M, "parse.try_number")
+    conv = [s_ for s_ in sites(tn) if isinstance(s_.node, ast.Call) and isinstance(s_.node.func, ast.Name) and s_.node.func.id in ("int", "float")]
+    order = [s_.node.func.id for s_ in conv]
+    direct = all(isinstance(s_.stmt, ast.Return) and s_.stmt.value is s_.node and len(s_.node.args) == 1 and u(s_.node.args[0]) == tn.params[0] for s_ in conv)
+    rep.ob("M8-number-cast", tn, f"try_number: {' then '.join(order) or '?'}; results returned as they are", order == ["int", "float"] and direct,
+           "a numeric marble is not converted by int(text) first and float(text) second with the result returned unchanged: integer marbles "
+           "beyond 2**53 lose precision, or `2.0` / `1e3` are emitted as ints — the emitted element is not the documented value of the marble")
     me = repo.fn(M, "parse.map_element")
     rets = [s for s in sites(me) if isinstance(s.node, ast.Return)]
     kinds = {}
